@@ -16,7 +16,7 @@ RULE = ('one op = one (function, d, sample) evaluated by the model and by numqi.
         'float64/complex128 and float32/complex64 inputs). d = 2..8. Inputs: Gaussian-integer matrices / integer coefficient vectors with '
         'entries in [-9,9], unit matrices E_rc, exact-dyadic density matrices. An op is non-trivial when its input is not zero; '
         'distinct = distinct op lines. Options: all_gellmann_matrix with_I in {True,False} for d = 2..8 and tensor_n = 2 (with_I both) for d = 2,3 '
-        '(4 in thorough), the latter compared with tolerance 0 for d <= 3 (exact products of binary64 entries, each rounded once on both sides).')
+        '(4 in thorough), tolerance 1e-12*d as for the basis itself.')
 TRUSTED = ['Lean 4.33 kernel', 'axioms: propext, Classical.choice, Quot.sound', 'Lean compiler for the driver executable',
            'Float.sqrt of the Lean runtime (binary64 sqrt) for the scalars of the executable instance',
            'harness/c16.py canonicalisation (exact rational parsing, tolerance comparison)',
@@ -214,16 +214,14 @@ def correspondence(ctx):
                     continue
                 tie.add(f'C16 gm {d} {i} {j}', guarded(lambda: G.gellmann_matrix(i, j, d).reshape(-1)), TOL64 * d, 'gm')
     # -- options: with_I=False (both tensor_n) and the tensor_n=2 flattening (itertools.product order, np.kron index) — round 6.
-    #    d <= 3: every entry of the basis is a binary64 number in the model too (0, +-1, +-i, c_k, -k*c_k with k in {1,2} exact); the model multiplies
-    #    them exactly, np.kron rounds each product once (one factor of every complex product is zero) and Fraction -> float is correctly rounded, so
-    #    the comparison is exact (tolerance 0).  d >= 4: the model keeps -k*c_k unrounded (k = 3: not a binary64 number) while numpy rounds it before
-    #    the Kronecker product, so products differ in the last bit: tolerance TOL64*d as for `all d`.
+    #    Tolerance as for `all d` (TOL64*d): an ordering / flattening / with_I error moves entries by O(1), so exactness would add no detection power,
+    #    while it would flag a library that computes the same scalars with a last-bit difference (e.g. sqrt(2)/sqrt(d) for sqrt(2/d)).
     for d in dims:
         tie.add(f'C16 all {d} 0', guarded(lambda: G.all_gellmann_matrix(d, with_I=False).reshape(-1)), TOL64 * d, 'all-noI')
         tie.add(f'C16 all {d} 1', guarded(lambda: G.all_gellmann_matrix(d, 1, True).reshape(-1)), TOL64 * d, 'all')
     for d in ([2, 3] if ctx.quick() else [2, 3, 4]):
         for w in (1, 0):
-            tie.add(f'C16 allt {d} {w}', guarded(lambda: G.all_gellmann_matrix(d, tensor_n=2, with_I=bool(w)).reshape(-1)), 0 if d <= 3 else TOL64 * d, 'tensor2' if w else 'tensor2-noI')
+            tie.add(f'C16 allt {d} {w}', guarded(lambda: G.all_gellmann_matrix(d, tensor_n=2, with_I=bool(w)).reshape(-1)), TOL64 * d, 'tensor2' if w else 'tensor2-noI')
     tie.add('C16 allt 1 1', guarded(lambda: G.all_gellmann_matrix(1, tensor_n=2).reshape(-1)), 0, 'all-assert')
     tie.add('C16 all 1', guarded(lambda: G.all_gellmann_matrix(1).reshape(-1)), 0, 'all-assert')
     tie.add('C16 gm 3 3 0', guarded(lambda: G.gellmann_matrix(3, 0, 3).reshape(-1)), 0, 'gm-assert')
@@ -390,6 +388,11 @@ def probe(ctx):
         err = np.abs(gram - 4 * np.eye(d ** 4))
         B = basis[d]
         ok_kron = _close(B2, np.stack([np.kron(B[a], B[b]) for a in range(d * d) for b in range(d * d)]), 0)
+        noI = guarded(lambda: G.all_gellmann_matrix(d, tensor_n=2, with_I=False))
+        if isinstance(noI, str) or noI.shape != (d ** 4 - 1, d * d, d * d) or not _close(noI, B2[:-1], 0):
+            ctx.fail('with_I', f'tensor_n=2, d={d}: with_I=False is not the list without its last element (I x I)', dict(fn='all_gellmann_matrix', d=d, tensor_n=2, with_I=False))
+        else:
+            ctx.probe_ok(('with_I-t2', d))
         if err.max() > 1e-12 or not ok_kron:
             a, b = np.unravel_index(int(np.argmax(err)), err.shape)
             ctx.fail('tensor2-orthogonality', f'tensor_n=2, d={d}: Tr(G_{a} G_{b}) = {gram[a, b]:.15g}', dict(fn='all_gellmann_matrix', d=d, tensor_n=2, a=int(a), b=int(b)))
